@@ -154,7 +154,7 @@ def message_part(ctx):
         for v in r['violations']:
             seen.setdefault(v['key'], (v, r['unit']))
         u = r['unit']
-        part.units.append({'name': f'first op {u["first_ops"][0]} on M{u["first_targets"][0]}, {u["depth"]} operations',
+        part.units.append({'name': f'first op {u["first_ops"][0]} on M{u["first_targets"][0]}' + (f', second op {u["second_ops"][0]}' if 'second_ops' in u else '') + f', {u["depth"]} operations',
                            'desc': 'pool of 3 real messages (two chunks; window inside a shared buffer + empty chunk; clone cut at 1) vs plain byte lists; symbolic bytes and operands',
                            'verdict': 'held' if not r['violations'] and not r['unsupported'] else ('violated' if r['violations'] else 'inconclusive'),
                            'nontrivial': r['paths'] > 0,
